@@ -10,3 +10,6 @@ for d in harness/cmd/*/; do
   b=$(basename "$d")
   (cd harness && go build -tags verif -o bin/$b ./cmd/$b) || echo "warning: harness $b did not build" >&2
 done
+# warm the build cache for the repo binaries some harnesses build and run (C09/C12: cmd/gostatsd with the
+# verif hooks; C20: cmd/lambda-extension as shipped)
+(cd /repo && go build -tags verif -o /dev/null ./cmd/gostatsd && go build -o /dev/null ./cmd/lambda-extension) || echo "warning: repo binaries did not build" >&2
